@@ -44,15 +44,15 @@ impl Codepage for char {
 
         match self {
             'L' | '8' => Some(encoding_rs::WINDOWS_1252), // Latin-1 CP1252
-            'G' => Some(encoding_rs::ISO_8859_7),         // Greek ISO-8859-7
+            'G' => Some(encoding_rs::WINDOWS_1253),       // Greek CP1253
             'C' => Some(encoding_rs::WINDOWS_1251),       // Cyrillic CP1251
-            'E' => Some(encoding_rs::ISO_8859_2),         // Central Europe ISO-8859-2
+            'E' => Some(encoding_rs::WINDOWS_1250),       // Central Europe CP1250
             'T' => Some(encoding_rs::WINDOWS_1254),       // Turkish ISO-8859-9 / CP1254
-            'B' => Some(encoding_rs::ISO_8859_13),        // Baltic ISO-8859-13 / Latin-7
+            'B' => Some(encoding_rs::WINDOWS_1257),       // Baltic CP1257
             'J' => Some(encoding_rs::SHIFT_JIS),          // Japanese SHIFT-JIS
-            'H' => Some(encoding_rs::GBK),                // Traditional Chinese CP936
-            'S' => Some(encoding_rs::EUC_KR),             // Simplified Chinese CP949
-            'K' => Some(encoding_rs::BIG5),               // Korean CP950
+            'H' => Some(encoding_rs::BIG5),               // Traditional Chinese CP950
+            'S' => Some(encoding_rs::GBK),                // Simplified Chinese CP936
+            'K' => Some(encoding_rs::EUC_KR),             // Korean CP949
             _ => None,                                    // Not a codepage
         }
     }
